@@ -54,7 +54,7 @@ class Ledger(object):
     def taint(self, *props):
         """After this dispatch the ledger no longer describes the client reliably
         for these properties (e.g. after an id collision)."""
-        self._taint_next = getattr(self, "_taint_next", set()) | set(props)
+        self.tainted |= set(props)
 
     def session(self, addr):
         s = self.sess.get(addr)
@@ -420,11 +420,14 @@ class Ledger(object):
         if d.lost_conn is not None:
             cl = d.lost_conn
             if cl.clean and cl.connect_called_seq is not None:
-                for r in self.session(cl.addr).reqs:
+                ss = self.session(cl.addr)
+                for r in ss.reqs:
                     if r.dead_after is None:
                         r.dead_after = d.seq
-            for ex in self.session(cl.addr).inex.values():
-                pass
+                # held-back QoS 0 messages have no Deferred to fail: the session is
+                # over, they are expected to be dropped (C11) - never to be sent later
+                ss.dead_fifo.extend(r for r in ss.fifo if not r.qos)
+                ss.fifo = [r for r in ss.fifo if r.qos]
 
     # ------------------------------------------------------------ api start
 
@@ -434,6 +437,7 @@ class Ledger(object):
         rq.state_at_call = c.state
         rq.closing_at_call = c.closing
         rq.window_at_call = c.window
+        rq.timeout_at_call = c.timeout
         rq.conn_version = c.version
         apispec.classify(rq, c)
         s = self.session(c.addr)
@@ -556,6 +560,8 @@ class Ledger(object):
         s = self.session(c.addr)
         p = op.pkt
         if p is None:
+            if op.type in TIMER_WORTHY or op.type == "PUBLISH":
+                d.tw.append(op)      # keep timer attribution aligned even for unparseable packets
             return
         t = op.type
         if t == "CONNECT":
@@ -612,14 +618,20 @@ class Ledger(object):
                 op.in_order = True
             else:
                 rq = None
-                for r in s.fifo:
+                for r in s.dead_fifo:
                     if same(r):
                         rq = r
+                        s.dead_fifo.remove(r)
                         break
-                if rq is not None:
-                    s.fifo.remove(rq)
-                    op.in_order = False
-                    op.jumped = True
+                if rq is None:
+                    for r in s.fifo:
+                        if same(r):
+                            rq = r
+                            break
+                    if rq is not None:
+                        s.fifo.remove(rq)
+                        op.in_order = False
+                        op.jumped = True
             if rq is None:
                 d.stale_tx.append(op)
                 return
@@ -642,7 +654,7 @@ class Ledger(object):
             op.jumped = not (s.fifo and s.fifo[0] is rq)
             if rq in s.fifo:
                 s.fifo.remove(rq)
-            rq.timeout0 = min(c.timeout, self.conns[rq.ci].timeout) if rq.ci in self.conns else c.timeout
+            rq.timeout0 = min(c.timeout, getattr(rq, "timeout_at_call", c.timeout))
             rq.first_ci = c.ci
             rq.tx.append(op)
             d.first_tx.append(op)
@@ -662,6 +674,12 @@ class Ledger(object):
         d.frame_fx.append(fx)
         if not fr.ok:
             fx["tag"] = "malformed"
+            c.had_malformed = True
+            # how the client read a malformed packet cannot be known from outside:
+            # from here on only the properties that do not depend on the protocol
+            # state keep being judged in this run
+            self.taint("C04", "C05", "C06", "C07", "C08", "C09", "C10", "C11", "C12", "C13", "C14", "C15",
+                       "C19", "C20")
             return
         p = fr.pkt
         t = p["type"]
@@ -674,6 +692,14 @@ class Ledger(object):
                     c.state = "connected"
                     c.connack_seq = d.seq
                     c.connack_t = d.t
+                    if c.clean:
+                        # a clean CONNACK discards what earlier connections left behind;
+                        # carried-over QoS 0 messages may be dropped or sent, the
+                        # properties do not say
+                        opt = [r for r in s.fifo if not r.qos and r.ci != c.ci]
+                        if opt:
+                            s.dead_fifo.extend(opt)
+                            s.fifo = [r for r in s.fifo if r not in opt]
                 else:
                     fx["tag"] = "connack-refused"
                     c.state = "refused"
@@ -741,7 +767,9 @@ class Ledger(object):
             fx["tag"] = "publish-q%d" % q
             if q == 2:
                 ex = s.inex.get(mid)
-                if ex is None:
+                if ex is None or ex.clean_reconnect_since:
+                    # (after a clean CONNECT the broker has forgotten the old exchange:
+                    # a PUBLISH with that id starts a new one)
                     ex = s.inex[mid] = InEx(mid, d.seq)
                 ex.copies.append(p)
                 fx["ex"] = ex
